@@ -4,7 +4,7 @@ from __future__ import annotations
 
 import ast
 
-from sa.cfg import all_paths_pass, dominators, reachable, reaches, specialize
+from sa.cfg import all_paths_pass, dominators, reachable, reaches, specialize, test_atoms
 from sa.db import AnalysisError, ancestors, dotted, src, walk_local
 from sa.model import contains, enclosing, is_processor_call, is_user_func_call
 from sa.variants import Variant, replace_once, sub_first, sub_once
@@ -12,7 +12,7 @@ from sa.variants import Variant, replace_once, sub_first, sub_once
 from .c06 import check_qualifiers
 from .c07 import check_cache_invalidation
 from .c12 import check_validate_first
-from .common import call_names, template_methods
+from .common import call_names, norm_atom, template_methods
 
 ID = "C08"
 EXPLANATION = (
@@ -110,16 +110,18 @@ def run(ctx) -> None:
     rep.add("C08.R3", f"{cis.qname}:one-category", ok, f"{cis.module.rel}:{lp.lineno}", why)
     # entry params skipped before categorisation
     cat_nodes = [n for n in cfg.nodes if any("_categorize_param" in call_names(db, c, cis) for c in cfg.calls_at(n))]
-    skips = [n for n in cfg.nodes if n.kind == "test" and contains(lp.ast, n.ast) and " in " in src(n.ast) and "entry" in src(n.ast)]
-    ok = bool(skips) and bool(cat_nodes)
+    val = {}
+    for n in cfg.nodes:
+        if n.kind == "test" and n.ast is not None and contains(lp.ast, n.ast):
+            for a in test_atoms(n.ast):
+                if isinstance(a, ast.Compare) and len(a.ops) == 1 and isinstance(a.ops[0], (ast.In, ast.NotIn)) and "entry" in src(a.comparators[0]) and isinstance(a.left, ast.Name) and isinstance(lp.ast.target, ast.Name) and a.left.id == lp.ast.target.id:
+                    k, pos = norm_atom(a)
+                    val[k] = True
+                    val[src(ast.Compare(a.left, [ast.NotIn()], a.comparators))] = False
+    ok = bool(val) and bool(cat_nodes)
     if ok:
-        for t in skips:
-            tgt = [x for x, l, _ in t.succ if l == "T"]
-            if tgt and any(reaches(tgt[0], c, avoid=[lp]) or tgt[0] is c for c in cat_nodes):
-                ok = False
-        dom = dominators(cfg.entry)
-        if not all(any(t in dom.get(c, set()) for t in skips) for c in cat_nodes):
-            ok = False
+        live = reachable(cfg.entry, specialize(val, cfg))
+        ok = not any(c in live for c in cat_nodes)
     rep.add("C08.R3", f"{cis.qname}:entry-params-skipped", ok, f"{cis.module.rel}:{lp.lineno}", "entry-point parameters are skipped before categorisation" if ok else "an entry-point parameter can also be categorised as required/optional")
     up = db.func("graph.input_spec._unique_params")
     from sa.pattern import solve
